@@ -176,6 +176,10 @@ func (fi *FileInfo) MakeReader(opt *ReaderOptions) (*Reader, error) {
 		if err == nil {
 			return false
 		}
+		if IsReadError(err) {
+			// an I/O failure is not a defect of the file: never recover from it
+			return true
+		}
 		if opt.ErrorHandling == ErrorHandlingReport {
 			var e *MalformedFileError
 			if errors.As(err, &e) {
